@@ -86,6 +86,7 @@ namespace
         bool                         started{false};
         bool                         abort{false};
         bool                         run_done{false};
+        bool                         long_slice{false};  // a waiter that misses its notify sleeps for seconds
         std::vector<std::unique_ptr<Action>> actions;
         GraphExecutorView           *view{nullptr};
         // node scripts
@@ -233,6 +234,19 @@ namespace
         }
         Action *a = tl_action;
         if (a == nullptr) { return; }
+        if (std::strcmp(name, "rt.push.enter") == 0 || std::strcmp(name, "rt.stop.enter") == 0)
+        {
+            // About to take the mutex for the critical section.  With long slices give a waiter that was (wrongly)
+            // notified already the time to test its predicate and block again: flag-after-notify then shows as
+            // a waiter woken only by its slice time-out (event 40).
+            bool slow = false;
+            {
+                std::lock_guard lk{H->m};
+                slow = H->long_slice && H->inflight == a;
+            }
+            if (slow) { std::this_thread::sleep_for(std::chrono::milliseconds(300)); }
+            return;
+        }
         std::unique_lock lk{H->m};
         if (std::strcmp(name, "rt.push.locked") == 0 || std::strcmp(name, "rt.stop.locked") == 0)
         {
@@ -406,7 +420,7 @@ namespace
 
         Harness h;
         H = &h;
-        std::int64_t start = 1000, end = 2000, slice = 1000, virt = 1, v0 = 900, nnodes = 1;
+        std::int64_t start = 1000, end = 2000, slice = 1000, virt = 1, v0 = 900, nnodes = 1, prestop = 0;
         h.dflt = 1;
         for (const Line &l : c)
         {
@@ -431,12 +445,14 @@ namespace
                 h.actions.push_back(std::move(a));
             }
             else if (l[0] == 6 && l.size() >= 2) { nnodes = l[1]; }
+            else if (l[0] == 7 && l.size() >= 2) { prestop = l[1]; }
         }
         if (nnodes < 1) { nnodes = 1; }
         if (nnodes > 4) { nnodes = 4; }
         h.hooks    = kHaveHooks && virt == 1;
         h.vclock   = v0;
-        h.end_time = end;
+        h.end_time   = end;
+        h.long_slice = slice >= 1000000;
         h.runs.assign((std::size_t)nnodes + 1, 0);
         if (!h.hooks)
         {
@@ -508,6 +524,8 @@ namespace
                     a->th       = std::thread(run_action, a.get());
                 }
             }
+            // a stop requested before run() is entered (run_storage's prologue clears the flag)
+            if (prestop != 0) { view.request_stop(); }
             std::thread runner([&] {
                 {
                     std::lock_guard lk{h.m};
